@@ -23,8 +23,9 @@ Arguments Ok {A} a.
 Arguments Err {A}.
 Arguments Unm {A}.
 
-(* switch for finding D103 (rename_key_ stores under a nested key without validation).  false = the code as it is. *)
-Definition fixed_D103 : bool := false.
+(* finding D103 (rename_key_ stored under a nested key without validation) is repaired in /repo (fixes/C01/D103.diff):
+   the tuple branch now calls _set_tuple(..., validated=False).  false = the code before the repair. *)
+Definition fixed_D103 : bool := true.
 
 (* the code's `for key, value in self.items(): <mutate value in place, may raise>`: entries are visited in insertion
    order, the first failure stops the loop, what was done before stays done *)
@@ -128,11 +129,25 @@ Definition refine (t : tree) (ns : list rname) : tree * bool :=
   end.
 
 (* ================================================================ batch size =========================== *)
-(* _check_new_batch_size: every entry has the new size as leading dims, empty tensor collections are exempt *)
-Definition check_new (new : list nat) (es : ents) : bool :=
-  forallb (fun kv => prefixb new (tshape (snd kv)) || (is_node (snd kv) && is_empty (snd kv))) es.
+(* _check_new_batch_size (after fixes/C01/D101_D102_D110.diff): pure and recursive.  A nested collection that is going
+   to receive the new size — fewer dims, or no content and a size that does not extend the new one — is checked through
+   its own content (a NonTensorData accepts any size); every other entry must have the new size as leading dims. *)
+Fixpoint check_new_t (new : list nat) (t : tree) : bool :=
+  match t with
+  | Leaf _ _ => true
+  | Node _ _ _ _ es =>
+      forallb (fun kv =>
+                 match snd kv with
+                 | Leaf sh _ => prefixb new sh
+                 | Node ck cbs _ _ _ =>
+                     if Nat.ltb (List.length cbs) (List.length new) || (negb (prefixb new cbs) && is_empty (snd kv))
+                     then match ck with KNt => true | KTd => check_new_t new (snd kv) end
+                     else prefixb new cbs
+                 end) es
+  end.
 
-(* td.batch_size = new  (_batch_size_setter).  Children with fewer dims are set to the new size BEFORE the check.
+(* td.batch_size = new  (_batch_size_setter after the repair).  The check runs FIRST and modifies nothing; then the nested
+   collections whose size does not extend the new one (fewer dims, or emptied) are given the new size; then the names.
    [sz]: the argument is a torch.Size (or a tuple).  The early return `if new_batch_size == self.batch_size` compares a
    python LIST with a torch.Size as unequal, so `td.batch_size = [same dims]` is not a no-op: the names are re-assigned
    and pushed to the children again. *)
@@ -141,16 +156,16 @@ Fixpoint set_bs (sz : bool) (t : tree) (new : list nat) : tree * bool :=
   | Leaf _ _ => (t, true)
   | Node k bs dv nm es =>
       if sz && shape_eqb new bs then (t, true)
+      else if negb (check_new_t new t) then (t, false)
       else
         let '(es1, ok1) :=
           seq_children
             (fun c =>
                match c with
                | Leaf _ _ => (c, true)
-               | Node _ cbs _ _ _ => if Nat.ltb (List.length cbs) (List.length new) then set_bs true c new else (c, true)
+               | Node _ cbs _ _ _ => if negb (prefixb new cbs) then set_bs true c new else (c, true)
                end) es in
         if negb ok1 then (Node k bs dv nm es1, false)
-        else if negb (check_new new es1) then (Node k bs dv nm es1, false)
         else
           match nm with
           | None => (Node k new dv None es1, true)
